@@ -70,6 +70,11 @@ var c19Sources = []c19Src{
 	// ADD-PATH receive for exactly the families p2 does NOT have it for (and vice versa), so that
 	// whatever family a table walk meets first, one of the two is on the "other" setting later
 	{name: "p4-addpath-odd", addr: netip.MustParseAddr("10.0.0.5"), id: netip.MustParseAddr("8.8.8.8"), as: 4200000002, peer: true, addPath: true, apOdd: true, as4: true},
+	// the product {2-octet AS only} x {ADD-PATH receive}, on an IPv4 and on an IPv6 peer address,
+	// and the 2-octet-AS-only speaker on an IPv6 address without ADD-PATH
+	{name: "p5-as2-addpath", addr: netip.MustParseAddr("10.0.0.6"), id: netip.MustParseAddr("6.6.6.1"), as: 65006, peer: true, addPath: true},
+	{name: "p6-as2-addpath-odd-v6", addr: netip.MustParseAddr("2001:db8::6"), id: netip.MustParseAddr("6.6.6.2"), as: 65007, peer: true, addPath: true, apOdd: true},
+	{name: "p7-as2-v6", addr: netip.MustParseAddr("2001:db8::7"), id: netip.MustParseAddr("6.6.6.3"), as: 65008, peer: true},
 }
 
 // ADD-PATH receive is negotiated per (peer, family): p2 has it for ipv4 unicast / multicast /
@@ -425,7 +430,7 @@ func c19Round(t *testing.T, o *vOut, r *vRand, round int) {
 		case 3:
 			srcs = []int{2, 1, 4, 10}
 			if r.chance(50) { // near-duplicate peers in one destination
-				srcs = [][]int{{5, 6}, {6, 5, 0}, {1, 7, 8}, {4, 9, 1}, {5, 6, 7, 8, 9}, {2, 10}, {2, 10, 1}, {10, 0}}[r.intn(8)]
+				srcs = [][]int{{5, 6}, {6, 5, 0}, {1, 7, 8}, {4, 9, 1}, {5, 6, 7, 8, 9}, {2, 10}, {2, 10, 1}, {10, 0}, {11, 12, 13}, {11, 2}, {12, 10, 1}, {13, 3}}[r.intn(12)]
 			}
 		default:
 			for j := range c19Sources {
@@ -438,7 +443,7 @@ func c19Round(t *testing.T, o *vOut, r *vRand, round int) {
 			}
 		}
 		if round%8 == 0 && i < 4 {
-			srcs = []int{2, 10}
+			srcs = []int{2, 10, 11, 12}
 		}
 		for _, si := range srcs {
 			src := c19Sources[si]
@@ -450,7 +455,7 @@ func c19Round(t *testing.T, o *vOut, r *vRand, round int) {
 				nlri := nlri0
 				attrs := []bgp.PathAttributeInterface{bgp.NewPathAttributeOrigin(uint8(r.intn(3)))}
 				if src.addr.IsValid() {
-					attrs = append(attrs, bgp.NewPathAttributeAsPath([]bgp.AsPathParamInterface{bgp.NewAs4PathParam(2, []uint32{src.as, uint32(64512 + r.intn(1000)), uint32(r.pick(65000, 4200000000, 1))})}))
+					attrs = append(attrs, bgp.NewPathAttributeAsPath([]bgp.AsPathParamInterface{bgp.NewAs4PathParam(2, []uint32{src.as, uint32(64512 + r.intn(1000)), uint32(map[bool]int{true: r.pick(65000, 4200000000, 1), false: r.pick(65000, 23456, 1)}[src.as4 || !src.peer])})}))
 				} else {
 					attrs = append(attrs, bgp.NewPathAttributeAsPath(nil))
 				}
@@ -805,6 +810,10 @@ func c19Round(t *testing.T, o *vOut, r *vRand, round int) {
 			src     c19Src
 			payload []byte
 			addPath bool // ADD-PATH receive of the neighbour for the family of this update
+			prefix  string
+			pathID  uint32
+			asPath  []uint32
+			ipUC    bool // IPv4 / IPv6 unicast: the families the reader below decodes
 		}
 		var sents []sent
 		for _, src := range c19Sources {
@@ -824,12 +833,27 @@ func c19Round(t *testing.T, o *vOut, r *vRand, round int) {
 				opt := &bgp.MarshallingOption{}
 				ap := nbrConf.IsAddPathReceiveEnabled(p.GetFamily())
 				if ap {
-					opt.AddPath = map[bgp.Family]bgp.BGPAddPathMode{p.GetFamily(): bgp.BGP_ADD_PATH_RECEIVE}
+					opt.AddPath = map[bgp.Family]bgp.BGPAddPathMode{p.GetFamily(): bgp.BGP_ADD_PATH_BOTH} // the neighbour sends path ids
 				}
 				if ap {
 					o.stat("update_addpath_"+p.GetFamily().String(), 1)
 				}
 				for _, u := range table.CreateUpdateMsgFromPaths([]*table.Path{p}, opt) {
+					ub := u.Body.(*bgp.BGPUpdate)
+					if !src.as4 { // a 2-octet-AS-only speaker encodes AS_PATH with 2-octet numbers
+						table.UpdatePathAttrs2ByteAs(ub)
+					}
+					// the path identifiers on the wire are the neighbour's (remote) ones
+					for j := range ub.NLRI {
+						ub.NLRI[j].ID = p.RemoteID()
+					}
+					for _, a := range ub.PathAttributes {
+						if mp, ok := a.(*bgp.PathAttributeMpReachNLRI); ok {
+							for j := range mp.Value {
+								mp.Value[j].ID = p.RemoteID()
+							}
+						}
+					}
 					payload, err := u.Serialize(opt)
 					if err != nil {
 						continue
@@ -837,7 +861,9 @@ func c19Round(t *testing.T, o *vOut, r *vRand, round int) {
 					var peer *peer
 					_ = s.mgmtOperation(func() error { peer = s.neighborMap[src.addr]; return nil }, false)
 					s.notifyPrePolicyUpdateWatcher(peer, []*table.Path{p}, u, time.Unix(int64(1700000000+len(sents)), 0), payload)
-					sents = append(sents, sent{src, payload, ap})
+					fam := p.GetFamily()
+					sents = append(sents, sent{src, payload, ap, p.GetNlri().String(), p.RemoteID(), p.GetAsList(), fam == bgp.RF_IPv4_UC || fam == bgp.RF_IPv6_UC})
+					o.stat(fmt.Sprintf("update_as4=%v_addpath=%v_peer6=%v_mp=%v", src.as4, ap, src.addr.Is6(), fam != bgp.RF_IPv4_UC), 1)
 				}
 			}
 		}
@@ -864,16 +890,16 @@ func c19Round(t *testing.T, o *vOut, r *vRand, round int) {
 				m, err = mrt.ParseBody(tk[mrt.MRT_COMMON_HEADER_LEN:], h)
 			}
 			if err != nil {
-				// an ADD-PATH payload cannot be parsed without options by ParseBody; the framing
-				// and the BGP4MP header are checked by hand in that case
-				if !sn.addPath {
-					o.fail("mrt-updates-unparseable", map[string]any{"record": c19SrvHex(tk), "err": err.Error()})
-					continue
-				}
+				// ParseBody takes AS width and ADD-PATH from the subtype: every record must parse
+				o.fail("mrt-updates-unparseable", map[string]any{"peer": sn.src.name, "subtype": h.SubType, "record": c19SrvHex(tk), "err": err.Error()})
+				continue
 			}
 			if m != nil { // the model reads the record the loop wrote
 				b := m.Body.(*mrt.BGP4MPMessage)
-				bb, _ := b.BGPMessage.Serialize()
+				bb := sn.payload
+				if rb, err := b.Serialize(); err != nil || !bytes.HasSuffix(rb, sn.payload) {
+					o.fail("mrt-updates-payload-differs", map[string]any{"peer": sn.src.name, "record": c19SrvHex(tk), "reserialised": c19SrvHex(rb)})
+				}
 				o.ask(fmt.Sprintf("msg %d %d %d %d %s %s %s", b.PeerAS, b.LocalAS, b.InterfaceIndex, b.AddressFamily, c19SrvHex(b.PeerIpAddress.AsSlice()),
 					c19SrvHex(b.LocalIpAddress.AsSlice()), c19SrvHex(bb)), "mrt.bgp4mp %d %s", h.SubType, c19SrvHex(tk[mrt.MRT_COMMON_HEADER_LEN:]))
 			}
@@ -886,6 +912,45 @@ func c19Round(t *testing.T, o *vOut, r *vRand, round int) {
 					ap = 1
 				}
 				o.ask(fmt.Sprint(h.SubType), "mrt.bgp4mpsub %d %d", a4, ap)
+			}
+			// an external reader: AS width, ADD-PATH and "locally generated" come from the subtype alone
+			if h.Type == mrt.BGP4MP && sn.ipUC {
+				st := mrt.MRTSubTypeBGP4MP(h.SubType)
+				rAS4 := st == mrt.MESSAGE_AS4 || st == mrt.MESSAGE_AS4_LOCAL || st == mrt.MESSAGE_AS4_ADDPATH || st == mrt.MESSAGE_AS4_LOCAL_ADDPATH
+				rAP := st >= mrt.MESSAGE_ADDPATH && st <= mrt.MESSAGE_AS4_LOCAL_ADDPATH
+				rLocal := st == mrt.MESSAGE_LOCAL || st == mrt.MESSAGE_AS4_LOCAL || st == mrt.MESSAGE_LOCAL_ADDPATH || st == mrt.MESSAGE_AS4_LOCAL_ADDPATH
+				rd := map[string]any{"peer": sn.src.name, "subtype": int(st), "record": c19SrvHex(tk), "received_prefix": sn.prefix, "received_path_id": sn.pathID,
+					"received_as_path": fmt.Sprint(sn.asPath), "session": fmt.Sprintf("4-octet AS %v, ADD-PATH receive %v", sn.src.as4, sn.addPath)}
+				body := tk[mrt.MRT_COMMON_HEADER_LEN:]
+				off := 4 // 2 x AS
+				if rAS4 {
+					off = 8
+				}
+				if len(body) < off+4 {
+					o.fail("mrt-updates-reader-differs", rd)
+				} else {
+					afi := binary.BigEndian.Uint16(body[off+2:])
+					off += 4 + map[bool]int{false: 8, true: 32}[afi == 2]
+					asSize := 2
+					if rAS4 {
+						asSize = 4
+					}
+					if len(body) < off {
+						o.fail("mrt-updates-reader-differs", rd)
+					} else if routes, asPath, _, err := c19DecodeUpdate(body[off:], asSize, func(uint16, uint8) bool { return rAP }); err != nil {
+						rd["reader_error"] = err.Error()
+						o.fail("mrt-updates-reader-differs", rd)
+					} else {
+						ok := len(routes) == 1 && routes[0].prefix == sn.prefix && fmt.Sprint(asPath) == fmt.Sprint(sn.asPath) && !rLocal
+						if ok && sn.addPath && routes[0].pathID != sn.pathID {
+							ok = false
+						}
+						if !ok {
+							rd["reader_routes"], rd["reader_as_path"], rd["reader_takes_it_for_local"] = fmt.Sprint(routes), fmt.Sprint(asPath), rLocal
+							o.fail("mrt-updates-reader-differs", rd)
+						}
+					}
+				}
 			}
 			wantSub := mrt.MESSAGE
 			switch {
@@ -916,10 +981,7 @@ func c19Round(t *testing.T, o *vOut, r *vRand, round int) {
 					detail["parsed"] = fmt.Sprintf("%d %d %s %s", b.PeerAS, b.LocalAS, b.PeerIpAddress, b.LocalIpAddress)
 					o.fail("mrt-updates-peer-differs", detail)
 				}
-				bb, _ := b.BGPMessage.Serialize()
-				if !bytes.Equal(bb, sn.payload) {
-					o.fail("mrt-updates-payload-differs", detail)
-				}
+
 			}
 		}
 		o.stat("update_records", len(toks))
